@@ -499,6 +499,32 @@ fn dups_sets(e1: &[Expr], i1: &[Expr]) -> Vec<ManifestSet> {
                 ("inc.ninja".into(), vec![Stmt::Build(b2.clone())]),
             ],
         });
+        if e2.len() == 1 && i2.is_empty() {
+            // The second statement as a phony alias that names itself as its
+            // input (`build x: phony x`, as old CMake writes them): still a
+            // producer of x, before or after the first statement.
+            let b2p = BuildStmt {
+                outs: e2.clone(),
+                rule: "phony".into(),
+                ins: e2.clone(),
+                ..Default::default()
+            };
+            sets.push(ManifestSet {
+                files: vec![("build.ninja".into(), vec![rule.clone(), Stmt::Build(b1.clone()), Stmt::Build(b2p.clone())])],
+            });
+            sets.push(ManifestSet {
+                files: vec![("build.ninja".into(), vec![rule.clone(), Stmt::Build(b2p.clone()), Stmt::Build(b1.clone())])],
+            });
+            sets.push(ManifestSet {
+                files: vec![
+                    (
+                        "build.ninja".into(),
+                        vec![rule.clone(), Stmt::Build(b1.clone()), Stmt::Include(lit("inc.ninja"))],
+                    ),
+                    ("inc.ninja".into(), vec![Stmt::Build(b2p.clone())]),
+                ],
+            });
+        }
         if e1.len() + i1.len() <= 2 {
             for (e3, _) in &thirds {
                 let b3 = BuildStmt {
